@@ -21,11 +21,15 @@ Modelled code (as it is NOW in /repo):
   ONCE, when the object is made (in `DocTest.run`: before the part loop); `__exit__` is
   `try: log_part() finally: stop()`;
 * `warnings.catch_warnings(record=True).__enter__/__exit__` (CPython; only the save/restore);
-* `utils.util_import.PythonPathContext.__enter__/__exit__` after commit bc2ba1f (`elif`): negative
-  index normalised with `len + index + 1`, `list.insert` clamping, and on exit
-  `len(sys.path) <= index` → recover by search, `sys.path[index] != dpath` → recover by search
-  (first occurrence; `RuntimeError` when absent), else `pop(index)`; `sys.path[index]` itself raises
-  `IndexError` for an index below `-len(sys.path)`;
+* `utils.util_import.PythonPathContext.__enter__/__exit__` after the commits bc2ba1f (`elif`),
+  b193b74 (`max(0, len + index + 1)`) and c14b47c (`pop` before `warn`): a negative index is normalised
+  with `max(0, len + index + 1)`, so the stored index is never negative; `list.insert` clamps a large
+  index to the end; on exit `len(sys.path) <= index` → recover by search, `sys.path[index] != dpath` →
+  recover by search (first occurrence; `RuntimeError` when absent; the entry is popped BEFORE
+  `warnings.warn`, which raises when warnings are errors: parameter `warnErr`), else `pop(index)`.
+  `sys.path[index]` would raise `IndexError` for an index below `-len(sys.path)`: unreachable for
+  an index stored by `__enter__` (theorem `exit_no_index_error`), kept in the model because
+  `__exit__` itself still contains the lookup;
 * the arrangement of `DocTest.run`: capture object made first, `catch_warnings` around the loop, the
   pre-import (inside `PythonPathContext(dpath, -1)`) before the first executed part and outside the
   capture, `with cap:` around each executed part, the exception ladder deciding to go on or stop.
@@ -125,43 +129,46 @@ def pyInsert (l : List String) (i : Int) (x : String) : List String :=
 
 inductive ExitResult where
   | clean            -- `sys.path.pop(self.index)`
-  | recovered        -- found by search, warning, `sys.path.pop(real_index)`
+  | recovered        -- found by search, `sys.path.pop(real_index)`, warning
+  | warnRaised       -- the same, but the warning is an error (`-W error`): it propagates, AFTER the pop
   | runtimeError     -- 'Expected dpath was not in sys.path'
   | indexError       -- `sys.path[self.index]` raised (index below `-len(sys.path)`)
   deriving DecidableEq, Repr
 
 /-- `__enter__`: the index stored in the object after normalisation -/
 def ppcEnterIndex (len : Nat) (index : Int) : Int :=
-  if index < 0 then (len : Int) + index + 1 else index
+  if index < 0 then (if (len : Int) + index + 1 < 0 then 0 else (len : Int) + index + 1) else index
 
 /-- `__enter__`: `sys.path.insert(self.index, self.dpath)` -/
 def ppcEnter (dpath : String) (index : Int) (path : List String) : Int × List String :=
   (ppcEnterIndex path.length index, pyInsert path (ppcEnterIndex path.length index) dpath)
 
-/-- the recovery branch: `real_index = sys.path.index(self.dpath)` … `sys.path.pop(real_index)` -/
-def ppcRecover (dpath : String) (path : List String) : List String × ExitResult :=
+/-- the recovery branch: `real_index = sys.path.index(self.dpath)` … `sys.path.pop(real_index)`,
+    then `warnings.warn(...)`; `warnErr` = warnings are turned into errors -/
+def ppcRecover (warnErr : Bool) (dpath : String) (path : List String) : List String × ExitResult :=
   match path.idxOf? dpath with
   | none => (path, .runtimeError)
-  | some k => (path.eraseIdx k, .recovered)
+  | some k => (path.eraseIdx k, if warnErr then .warnRaised else .recovered)
 
 /-- `__exit__` with the stored (normalised) index -/
-def ppcExit (dpath : String) (index : Int) (path : List String) : List String × ExitResult :=
-  if (path.length : Int) ≤ index then ppcRecover dpath path
+def ppcExit (warnErr : Bool) (dpath : String) (index : Int) (path : List String) : List String × ExitResult :=
+  if (path.length : Int) ≤ index then ppcRecover warnErr dpath path
   else
     match pyIndexPos path.length index with
     | none => (path, .indexError)
-    | some k => if path[k]? = some dpath then (path.eraseIdx k, .clean) else ppcRecover dpath path
+    | some k => if path[k]? = some dpath then (path.eraseIdx k, .clean) else ppcRecover warnErr dpath path
 
 /-- how the `with` statement ends: an exception raised by `__exit__` replaces the body's ending -/
 def exitEnding (e : Ending) : ExitResult → Ending
-  | .runtimeError | .indexError => .exception
+  | .runtimeError | .indexError | .warnRaised => .exception
   | _ => e
 
-/-- `with PythonPathContext(dpath, index): body` -/
-def withPPC (dpath : String) (index : Int) (body : Body) (st : PState) : PState × Ending × ExitResult :=
+/-- `with PythonPathContext(dpath, index): body`; `warnErr` = the process runs with warnings as errors -/
+def withPPC (dpath : String) (index : Int) (body : Body) (st : PState) (warnErr : Bool := false) :
+    PState × Ending × ExitResult :=
   let en := ppcEnter dpath index st.sysPath
   let r := body { st with sysPath := en.2 }
-  let ex := ppcExit dpath en.1 r.1.sysPath
+  let ex := ppcExit warnErr dpath en.1 r.1.sysPath
   ({ r.1 with sysPath := ex.1 }, exitEnding r.2 ex.2, ex.2)
 
 /-! ## the arrangement in `DocTest.run` -/
